@@ -41,23 +41,37 @@ SPEC = {
                 'junk value and must fail its final position check); exercised by the mutated-proof stream'],
     'assumptions': ['per-report gas sums do not wrap uint64 (generator keeps message gas <= 90000); max size and gas are uint64',
                     'commit reports have at most 256 messages for the provability theorem (the verifier\'s own limit)'],
-    'level_text': 'Proof: 11 Coq theorems. Multiproof theorem of merklemulti for ALL trees <= 256 leaves and all ascending '
-                  'index sets under commutativity of the internal hash (induction over layers, FIFO-queue invariant), its '
-                  'necessity; full specification of one Add (membership, eligibility, token-data alignment, limits, executed '
-                  'bookkeeping), no report from commit data that does not reproduce its root, re-verification of every '
-                  'appended report to the committed root, budget invariant and outcome-level limits for selectReport; nonce '
-                  'order proved outside the recorded class (fallback drops a sequenced message), refuted inside it, and refuted '
-                  'for the pre-repair check order. Correspondence: real builder, real '
-                  'merklemulti and real selectReport run against the model on generated inputs every run. '
-                  'System level (Model/ExecSys.v, Proofs/ExecSysP.v): C08_report_sound_cycle - for every cycle of three rounds, every chain report of the Filter round re-verifies '
-                  '(contract-style) to the root of a commit report that f_dest+1 distinct oracles reported identically in the GetCommitReports round under the key of the chain report\'s '
-                  'source chain (C08_provable composed with C07 across the rounds; after the repairs of F75); exercised on real plugins by the execsys part of C07 (sinks ExecSys_cycle_*)',
-    'level_note': 'Trusted: Coq kernel, hand-written model, differential harness; hash / hasher / codec / estimator are oracles. '
-                  'Nonce order: the too-costly half of F14 is repaired (F14a, C08_nonce_order_costly_unfixed_refuted about the old '
-                  'order); the size/gas-fallback half is still false of the code and recorded (C08_nonce_order_refuted, '
-                  'C08_nonce_order_except_known with hypothesis fallback_drop = false). No axioms.',
-    'modelled': 'merklemulti NewTree/Prove/VerifyComputeRoot, slicelib BoolsToBitFlags/BitFlagsToBools, ConstructMerkleTree, '
-                'checkMessage/checkMessageNonce, buildSingleChainReportHelper, verifyReport, buildSingleChainReport (greedy '
-                'fallback), builder Add/Build, markNewMessagesExecuted, selectReport, and the Filter branch of Plugin.Outcome as select_report with the arguments the plugin SHOULD pass to report.NewBuilder: nonces = the (source, sender, nonce) triples reported by more than fChain[dest] oracles (mergeNonceObservations), maxReportSizeBytes = maxReportLength = 1 MiB (execute/factory.go), maxGas = offchainCfg.BatchGasLimit, the hasher / codec / estimator, commit reports = PendingCommitReports of the previous outcome in encoded order, result re-sorted as Outcome.Encode does; Timestamp/BlockNum of CommitData and '
-                'message bodies beyond id/seq/nonce/sender/source are not modelled (oracle inputs)',
+    'level_text': 'Proof: 26 closed Coq theorems. 12 property theorems. C08_multiproof is proved in full: for ALL trees of <= 256 leaves, all non-empty ascending index '
+                  'sets and any commutative internal hash, verify (selected leaves) (prove tree idxs) = root (induction over layers, FIFO-queue invariant), with '
+                  'C08_multiproof_needs_commutativity. The report builder: full specification of one Add (membership, eligibility, token-data alignment, limits, executed '
+                  'bookkeeping: C08_add, C08_mark), no report from commit data that does not reproduce its root (C08_bad_root_no_report), every appended report '
+                  're-verifies contract-style from its flag bits to the committed root (C08_provable), budget invariant and outcome-level limits for selectReport '
+                  '(C08_limits_invariant, C08_outcome). Nonce order: proved outside the recorded class (C08_nonce_order_except_known), refuted inside it '
+                  '(C08_nonce_order_refuted: the size / gas fallback drops a sequenced message after its nonce was counted - known finding F14, asserted by the '
+                  "repository's own tests), refuted for the pre-repair check order (F14a, repaired in /repo). System level (ExecSys): C08_report_sound_cycle - every "
+                  'chain report of a Filter round verifies to the root of a commit report that f_dest+1 distinct oracles reported identically in round 1 under the key of '
+                  'its own source chain (C08_provable composed with the C07 cycle theorem). Judge soundness (14 C08_judge_*): for each of the 4 sinks (the nonce clause '
+                  "as a second pass) the executable property accepts the model's output and implies the Prop-level clause; Panic / Spin never pass. Correspondence, every "
+                  'run: the real report.NewBuilder Add + Build, real merklemulti NewTree / Prove / VerifyComputeRoot incl. mutated proofs, real selectReport, and '
+                  'execute.Plugin.Outcome in the Filter state under size / gas pressure and tampered commit data; every produced report is re-verified in Go with '
+                  'VerifyComputeRoot and again in Coq; the cycle theorem is exercised on four long-lived plugins by the ExecSys part of C07. Translation tie (3 theorems, '
+                  'C08_gen.v): BoolsToBitFlags / BitFlagsToBools and their round trip. Partial: root = mroot(leaves), the number of chain reports and Err answers are '
+                  'compared with the model only.',
+    'level_note': 'Trusted: Coq kernel, hand-written model and theorem statements (merklemulti is external code, transliterated from its source into Model/Merkle.v, not '
+                  'verified in place), differential harness, leaf translator. Specific: keccak HashInternal is an oracle - the model uses the table of real (a,b) -> '
+                  'H(a,b) pairs logged by the harness, the multiproof theorem assumes only commutativity; MessageHasher.Hash, ExecutePluginCodec size and the gas '
+                  'EstimateProvider are universally quantified oracles (mocks in the harness); reading past the computed hashes in VerifyComputeRoot is modelled as an '
+                  "immediate error. Assumed: per-report gas sums do not wrap uint64, at most 256 messages per commit report (the verifier's own limit). Known finding F14 "
+                  'stays reported as KNOWN-FINDING (class 1). No axioms.',
+    'technique': "Coq proof of the merklemulti multiproof theorem (any commutative hash) and of the report builder's specification over a hand-written / transliterated "
+                 'Gallina model; cycle composition with C07 (ExecSys); differential correspondence with proved judge plus re-verification of every real report in Go and '
+                 'in Coq; bit-flag packing re-translated from Go (C08_gen.v)',
+    'modelled': 'merklemulti NewTree/Prove/VerifyComputeRoot, slicelib BoolsToBitFlags/BitFlagsToBools, ConstructMerkleTree, checkMessage/checkMessageNonce, '
+                'buildSingleChainReportHelper, verifyReport, buildSingleChainReport (greedy fallback), builder Add/Build, markNewMessagesExecuted, selectReport, and '
+                'the Filter branch of Plugin.Outcome as select_report with the arguments the plugin SHOULD pass to report.NewBuilder: nonces = the (source, sender, '
+                'nonce) triples reported by more than fChain[dest] oracles (mergeNonceObservations), maxReportSizeBytes = maxReportLength = 1 MiB (execute/factory.go), '
+                'maxGas = offchainCfg.BatchGasLimit, the hasher / codec / estimator, commit reports = PendingCommitReports of the previous outcome in encoded order, '
+                'result re-sorted as Outcome.Encode does; Timestamp/BlockNum of CommitData and message bodies beyond id/seq/nonce/sender/source are not modelled '
+                '(oracle inputs). Translated from source per run: slicelib.BoolsToBitFlags, BitFlagsToBools (C08_gen.v); checkMessage / checkMessageNonce are refused '
+                'by the translator (logger and interface calls, mutable builder state) and stay hand-modelled',
 }
